@@ -67,6 +67,10 @@ package realm
 //@       && (plainAt(meta, packet, 8) == 1 || plainAt(meta, packet, 8) == 2) && forall(i, 0, 16, plainAt(meta, packet, 9 + i) == hexb(meta.Nonce, i)) ==> isnil(ret1) && ret0.Type == plainAt(meta, packet, 8)
 //@   modifies hst
 
+// accepts(meta, packet): packet decodes as a punch packet under exactly this metadata
+//@ spec func accepts(meta, packet) = len(packet) >= 33 && len(packet) <= 1057 && metaOK(meta) && forall(i, 0, 8, plainAt(meta, packet, i) == punchMagic[i])
+//@       && (plainAt(meta, packet, 8) == 1 || plainAt(meta, packet, 8) == 2) && forall(i, 0, 16, plainAt(meta, packet, 9 + i) == hexb(meta.Nonce, i))
+
 //@ ghost var saltRowBefore (Array Int Int)
 //@ hook call xorPunchPacket(pk, key, salt) in EncodePunchPacket
 //@   update saltRowBefore = row(salt)
@@ -104,8 +108,10 @@ package realm
 //@   requires !rwlock
 //@   ensures !rwlock
 //@   ensures forall(k, 0, len(packet), packet[k] == old(packet[k]))
-//@   ensures ret1 ==> indom(c.attempts, ret0.AttemptID)
-//@   modifies hst, rwlock
+//@   ensures ret1 ==> indom(c.attempts, ret0.AttemptID) && accepts(c.attempts[ret0.AttemptID], packet)
+// interference: by the time the read lock is held other goroutines may have registered or
+// removed attempts, so callers learn nothing about the registry beyond the postcondition
+//@   modifies hst, rwlock, mapof(c.attempts)
 //@   loop 0
 //@     invariant rwlock
 //@     invariant forall(k, 0, len(packet), packet[k] == old(packet[k]))
@@ -118,6 +124,7 @@ package realm
 //@   ensures isnil(ret) ==> indom(c.attempts, id) && c.attempts[id].Nonce == meta.Nonce && c.attempts[id].Obfs == meta.Obfs
 //@   ensures !isnil(ret) ==> forallStr(k, indom(c.attempts, k) == old(indom(c.attempts, k)))
 //@   ensures forallStr(k, k != id ==> indom(c.attempts, k) == old(indom(c.attempts, k)))
+//@   ensures forallStr(k, k != id && indom(c.attempts, k) ==> c.attempts[k].Nonce == old(c.attempts[k].Nonce) && c.attempts[k].Obfs == old(c.attempts[k].Obfs))
 //@   modifies any
 
 //@ func (*PunchPacketConn).RemovePunchAttempt
@@ -126,6 +133,7 @@ package realm
 //@   requires !rwlock
 //@   ensures !rwlock && !indom(c.attempts, id)
 //@   ensures forallStr(k, k != id ==> indom(c.attempts, k) == old(indom(c.attempts, k)))
+//@   ensures forallStr(k, k != id && indom(c.attempts, k) ==> c.attempts[k].Nonce == old(c.attempts[k].Nonce) && c.attempts[k].Obfs == old(c.attempts[k].Obfs))
 //@   modifies any
 
 // ReadFrom: a packet is withheld (the loop continues) only when it decoded as a STUN
@@ -148,6 +156,11 @@ package realm
 //@   update diverted = diverted + 1
 //@ hook call emitPunch(c2, ev)
 //@   update diverted = diverted + 1
+// a packet is diverted as a punch packet only if it decodes under the metadata of an attempt
+// that is registered now (as of the last time this goroutine held the registry lock)
+//@ guard call emitPunch(c2, ev) in (*PunchPacketConn).ReadFrom
+//@   props C20
+//@   requires c2 == c && 0 <= innerN && innerN <= len(p) && indom(c.attempts, ev.AttemptID) && accepts(c.attempts[ev.AttemptID], p[0:innerN])
 
 //@ func (*PunchPacketConn).decodeSTUNPacket
 //@   props C20 C03
@@ -168,7 +181,7 @@ package realm
 //@   ensures !rwlock
 //@   ensures ret0 == innerN && payload(ret1) == innerAddrPl && tagof(ret1) == innerAddrTag
 //@   ensures isnil(ret2) ==> ret0 >= 0 && ret0 <= len(p) && forall(k, 0, ret0, p[k] == sel(innerRow, off(p) + k))
-//@   modifies p[0:len(p)], hst, rwlock, innerN, innerAddrPl, innerAddrTag, innerRow, diverted
+//@   modifies p[0:len(p)], hst, rwlock, innerN, innerAddrPl, innerAddrTag, innerRow, diverted, mapof(c.attempts)
 //@   loop 0
 //@     invariant !rwlock
 
